@@ -24,7 +24,11 @@ def run(chk, tier):
         lib = e4.lib_of(ss[name])
         n_conv += witness.check_c11_conversions(chk, ss[name], root, lib)
         n_cast += witness.check_no_const_removal(chk, lib, root)
-    obligations = n_neg + n_conv + n_cast
+    n_cv = 0
+    for std, comp in ([("c++17", "clang++"), ("c++11", "clang++")] + ([("c++20", "clang++"), ("c++14", "g++"), ("c++17", "g++"), ("c++23", "g++")] if tier == "thorough" else [])):
+        n_cv += witness.check_cv_witness(chk, root, std, comp)
+    chk.floor("cv witnesses", n_cv, 100)
+    obligations = n_neg + n_conv + n_cast + n_cv
     discharged = obligations - len(chk.violations)
     chk.floor("negative witnesses", n_neg, 1500)
     chk.floor("cast sites", n_cast, 20)
@@ -37,7 +41,9 @@ def run(chk, tier):
                      "batched TU, each line must own an error and no other line may; (2) conversion witnesses "
                      "(is_convertible / is_constructible / is_assignable): views and cursors convert only towards const; (3) "
                      "AST rule over all instantiations with Byte = const char: no C-style/const/reinterpret cast makes a "
-                     "pointee less const, no mutable member; with C++ const-correctness (1)-(3) imply no getter, size query, "
+                     "pointee less const, no mutable member; (4) W-CV: for every cv-qualification of the byte type (const, volatile, const volatile) the "
+                     "element, reference, pointer and iterator types of both array references are const exactly when the byte type "
+                     "is (type computations only); with C++ const-correctness (1)-(3) imply no getter, size query, "
                      "iterator or visit call can write. The harness TU instantiates every non-mutating member with const "
                      "bytes (must compile: it is the facts source)."),
         rule_text="obligation = one witness line / conversion assertion / cast site; discharged by the compiler's type checker",
